@@ -85,14 +85,32 @@ func oneHitConsumed(c *Ctx, fn *ssa.Function, region *ssa.BasicBlock, depth int)
 			}
 			if ci, ok := ins.(ssa.CallInstruction); ok && depth < 2 && len(fn.Params) > 0 {
 				sc := ci.Common().StaticCallee()
-				if sc != nil && c.inRoot(sc) && sc.Blocks != nil && len(ci.Common().Args) > 0 && ci.Common().Args[0] == ssa.Value(fn.Params[0]) && sc.Signature.Recv() != nil {
-					if b2, n2 := oneHitConsumed(c, sc, sc.Blocks[0], depth+1); b2 == "" && n2 > 0 {
+				// a method of the iterator, or of a cursor struct it holds by value (&i.cursor)
+				onRecv := false
+				if sc != nil && len(ci.Common().Args) > 0 {
+					a0 := ci.Common().Args[0]
+					onRecv = a0 == ssa.Value(fn.Params[0])
+					if fa, isFA := a0.(*ssa.FieldAddr); isFA && fa.X == ssa.Value(fn.Params[0]) {
+						onRecv = true
+					}
+				}
+				if sc != nil && c.inRoot(sc) && sc.Blocks != nil && onRecv && sc.Signature.Recv() != nil {
+					if b2, n2 := oneHitConsumed(c, sc, sc.Blocks[0], depth+1); b2 == "" && n2 > 0 && consumesSomewhere(c, sc, 0) {
 						via[x] = true
 					}
 				}
 			}
 		}
 		if ifi, ok := x.Instrs[len(x.Instrs)-1].(*ssa.If); ok {
+			// "already consumed" spelled as a predicate (finished()) or as a flag that is set
+			// wherever the sentinel is stored
+			for si := range x.Succs {
+				for _, cf := range condFacts(ifi.Cond, si == 0, 0) {
+					if consumedAtom(c, cf) {
+						viaEdge[[2]*ssa.BasicBlock{x, x.Succs[si]}] = true
+					}
+				}
+			}
 			// the edge on which docNum1Hit == sentinel holds (the block it leads to may
 			// have other predecessors, e.g. in `a == sentinel || a < target`)
 			if bin, ok := ifi.Cond.(*ssa.BinOp); ok && bin.Op == token.EQL && exprSig(bin.X, 0) == ".docNum1Hit" && isMaxUint64(bin.Y) {
@@ -117,6 +135,101 @@ func oneHitConsumed(c *Ctx, fn *ssa.Function, region *ssa.BasicBlock, depth int)
 		}
 	}
 	return bad, nret
+}
+
+// consumesSomewhere: fn (or a callee on the same receiver) stores the consumed
+// sentinel into docNum1Hit.
+func consumesSomewhere(c *Ctx, fn *ssa.Function, depth int) bool {
+	for _, b := range fn.Blocks {
+		for _, ins := range b.Instrs {
+			if st, ok := ins.(*ssa.Store); ok && strings.HasSuffix(exprSig(st.Addr, 0), ".docNum1Hit") && isMaxUint64(st.Val) {
+				return true
+			}
+			if call, ok := ins.(*ssa.Call); ok && depth < 2 {
+				if sc := call.Call.StaticCallee(); sc != nil && c.inRoot(sc) && sc.Blocks != nil && sc != fn && consumesSomewhere(c, sc, depth+1) {
+					return true
+				}
+			}
+		}
+	}
+	return false
+}
+
+// consumedFlags: bool fields that are stored true only in blocks that also store
+// the consumed sentinel into docNum1Hit (a flag kept beside the sentinel).
+func consumedFlags(c *Ctx) map[string]bool {
+	good, bad := map[string]bool{}, map[string]bool{}
+	for _, fn := range c.srcFns {
+		for _, b := range fn.Blocks {
+			sentinel := false
+			var flags []string
+			for _, ins := range b.Instrs {
+				st, ok := ins.(*ssa.Store)
+				if !ok {
+					continue
+				}
+				sig := exprSig(st.Addr, 0)
+				if strings.HasSuffix(sig, ".docNum1Hit") && isMaxUint64(st.Val) {
+					sentinel = true
+				}
+				if k, isK := st.Val.(*ssa.Const); isK && k.Value != nil && k.Value.String() == "true" && strings.HasPrefix(sig, ".") {
+					flags = append(flags, sig)
+				}
+			}
+			for _, f := range flags {
+				if sentinel {
+					good[f] = true
+				} else {
+					bad[f] = true
+				}
+			}
+		}
+	}
+	for f := range bad {
+		delete(good, f)
+	}
+	return good
+}
+
+// consumedAtom: the fact says that the 1-hit has been consumed already.
+func consumedAtom(c *Ctx, cf condFact) bool {
+	switch x := cf.cond.(type) {
+	case *ssa.BinOp:
+		if strings.HasSuffix(exprSig(x.X, 0), ".docNum1Hit") && isMaxUint64(x.Y) {
+			return (x.Op == token.EQL) == cf.truth && (x.Op == token.EQL || x.Op == token.NEQ)
+		}
+	case *ssa.UnOp:
+		if x.Op == token.MUL && cf.truth && consumedFlags(c)[exprSig(x.X, 0)] {
+			return true
+		}
+		if x.Op == token.MUL && cf.truth {
+			if fa, ok := x.X.(*ssa.FieldAddr); ok && consumedFlags(c)[exprSig(fa, 0)] {
+				return true
+			}
+		}
+	case *ssa.Call:
+		// a predicate whose true result means "docNum1Hit == sentinel"
+		sc := x.Call.StaticCallee()
+		if sc == nil || sc.Blocks == nil || !cf.truth {
+			return false
+		}
+		for _, b := range sc.Blocks {
+			ret, ok := b.Instrs[len(b.Instrs)-1].(*ssa.Return)
+			if !ok || len(ret.Results) != 1 {
+				continue
+			}
+			all := true
+			for _, inner := range condFacts(ret.Results[0], true, 0) {
+				if !consumedAtom(c, inner) {
+					all = false
+				}
+			}
+			if len(sc.Blocks) == 1 && all && len(condFacts(ret.Results[0], true, 0)) > 0 {
+				return true
+			}
+		}
+	}
+	return false
 }
 
 func init() {
@@ -459,6 +572,15 @@ func init() {
 				}
 			}
 			if region == nil {
+				// the test may sit in a predicate method (is1Hit()): the edge out of the entry
+				// block on which the marker is known to be non-zero
+				for _, f := range edgePathFacts(fn) {
+					if f.nonzero && strings.HasSuffix(f.path, ".normBits1Hit") && len(f.edge.Preds) == 1 && f.edge.Preds[0] == fn.Blocks[0] {
+						region = f.edge
+					}
+				}
+			}
+			if region == nil {
 				r.bad(key, fnName(fn), c.pos(fn.Pos()), "the iterator does not dispatch on normBits1Hit first")
 			} else {
 				bad, nret := oneHitConsumed(c, fn, region, 0)
@@ -519,52 +641,41 @@ func init() {
 					r.ok(key, fnName(sf), c.pos(site.Pos()), "clean path only when postings == nil || postings.postings == ActualBM")
 				}
 			}
-			// general branch: Actual == nil || !HasNext guard dominates every Actual.Next()
+			// general branch: every Actual.Next() - in any method of the iterator - happens where
+			// Actual.HasNext() is known to hold: tested in the function (inline, as a switch case,
+			// inside a predicate such as exhausted()), or by every caller of the helper it is in
 			key = fnName(fn) + "/exhausted-guard"
 			okGuard := true
 			nNext := 0
-			for _, name := range []string{"(*PostingsIterator).nextDocNumAtOrAfter", "(*PostingsIterator).nextDocNumAtOrAfterClean"} {
-				f := c.MustFn(name)
+			where := ""
+			for _, f := range c.srcFns {
+				if f.Signature.Recv() == nil || f.Parent() != nil {
+					continue
+				}
+				if rn := namedOf(f.Signature.Recv().Type()); rn == nil || rn.Obj().Name() != "PostingsIterator" {
+					continue
+				}
 				for _, b := range f.Blocks {
 					for _, ins := range b.Instrs {
 						call, ok := ins.(*ssa.Call)
-						if !ok || !call.Call.IsInvoke() || call.Call.Method.Name() != "Next" || exprSig(call.Call.Value, 0) != ".Actual" {
+						if !ok || !call.Call.IsInvoke() || call.Call.Method.Name() != "Next" || !strings.HasSuffix(exprSig(call.Call.Value, 0), ".Actual") {
 							continue
 						}
 						nNext++
-						// dominated by a HasNext() true edge on .Actual in this function, or (Clean) called only under it
-						dom := false
-						for _, x := range f.Blocks {
-							if ifi, ok := x.Instrs[len(x.Instrs)-1].(*ssa.If); ok {
-								if hc, ok := ifi.Cond.(*ssa.Call); ok && hc.Call.IsInvoke() && hc.Call.Method.Name() == "HasNext" && exprSig(hc.Call.Value, 0) == ".Actual" {
-									if x.Succs[0].Dominates(b) || x.Succs[0] == b {
-										dom = true
-									}
-								}
-							}
-						}
-						if !dom && name == "(*PostingsIterator).nextDocNumAtOrAfterClean" {
-							// the caller established HasNext before delegating
-							for _, site := range c.callsTo(f) {
-								for _, x := range site.Parent().Blocks {
-									if ifi, ok := x.Instrs[len(x.Instrs)-1].(*ssa.If); ok {
-										if hc, ok := ifi.Cond.(*ssa.Call); ok && hc.Call.IsInvoke() && hc.Call.Method.Name() == "HasNext" && x.Succs[0].Dominates(site.Block()) {
-											dom = true
-										}
-									}
-								}
-							}
-						}
-						if !dom {
+						p := placeOf(call.Call.Value)
+						if p == "" || !c.pathKnownUp(f, p+".HasNext()", true, b, 0) {
 							okGuard = false
+							where = c.pos(call.Pos()) + " in " + fnName(f)
 						}
 					}
 				}
 			}
 			if okGuard && nNext > 0 {
 				r.ok(key, fnName(fn), c.pos(fn.Pos()), fmt.Sprintf("all %d Actual.Next() calls are behind a HasNext() test", nNext))
+			} else if nNext == 0 {
+				r.undecided(key, fnName(fn), c.pos(fn.Pos()), "no Actual.Next() call found: the rule's model of the iterator is out of date")
 			} else {
-				r.bad(key, fnName(fn), c.pos(fn.Pos()), "Actual.Next() can be called on an exhausted cursor")
+				r.bad(key, fnName(fn), c.pos(fn.Pos()), "Actual.Next() can be called on an exhausted cursor ("+where+")")
 			}
 			// Count
 			cnt := c.MustFn("(*PostingsList).Count")
